@@ -176,12 +176,13 @@ def bounded_files(sess: Session):
                    [['i1', 'active', "it's; a, b"], ['i2', 'active', 'back\\slash and  two  spaces']],
                    # only \n and \r\n end a row: other "line boundary" characters of str.splitlines() are data
                    [['i1', 'active', 'a\x0bb\x0cc'], ['i2', 'active', 'd\x1ce\u2028f\u0085g\u2029h'], ['i3', 'active', 'plain']]]
-        for header, rows, nl in itertools.product(headers, rowsets, ('\n', '\r\n')):
+        for header, rows, nl, final_nl in itertools.product(headers, rowsets, ('\n', '\r\n'), (True, False)):
+            if not rows and not final_nl:
+                continue
             path = os.path.join(tmp, 'ili.tsv')
             with open(path, 'w', newline='', encoding='utf-8') as fh:
-                fh.write('\t'.join(header) + nl)
-                for r in rows:
-                    fh.write('\t'.join(r) + nl)
+                # the last row with or without a terminating line end
+                fh.write(nl.join(['\t'.join(header)] + ['\t'.join(r) for r in rows]) + (nl if final_nl else ''))
             cases += 1
             got = list(ILI.load(path))
             want = [dict(zip([h.lower() for h in header], r)) for r in rows]
